@@ -88,6 +88,11 @@ def loopFuel {σ ρ : Type} (body : σ → Res (LStep σ ρ)) : Nat → σ → R
 /-- `u32::decode_fixed(s)` of integer-encoding 3.0.4 (asserts the length) -/
 @[inline] def decodeFixed32Chk (s : Bytes) (site : String) : Res Nat :=
   if s.length = 4 then .ok (decodeFixed32 s) else .panic site
+/-- `Ordering as i8 + 1`: the order of `Less < Equal < Greater` -/
+@[inline] def ordNat : Ordering → Nat
+  | .lt => 0
+  | .eq => 1
+  | .gt => 2
 /-- `opt.unwrap()` -/
 @[inline] def unwrapO {α : Type} (o : Option α) (site : String) : Res α :=
   match o with
